@@ -197,6 +197,10 @@ class Ctx:
         if self.guards:
             # facts derived while evaluating under guards hold under those guards only
             z = z3.Implies(z3.And(*[V.zbool(g) for g in self.guards]), z)
+        seen = self.__dict__.setdefault('_pc_ids', set())
+        if z.get_id() in seen:          # the same fact again (e.g. the range of the same header word): keep the path condition small
+            return
+        seen.add(z.get_id())
         self.pc.append(z)
         self.solver.add(z)
 
@@ -333,6 +337,12 @@ class Ctx:
             return True
         if z3.is_false(cz):
             return False
+        # a condition already decided on this path stays decided (the path condition only grows): no solver call, no fork
+        memo = self.__dict__.setdefault('_dec_memo', {})
+        inner, flip = (cz.arg(0), True) if z3.is_not(cz) else (cz, False)
+        hit = memo.get(inner.get_id())
+        if hit is not None and not getattr(self, 'family', None):
+            return (not hit[1]) if flip else hit[1]
         if getattr(self, 'family', None):
             from .loops import family_guard_decide
             # a branch whose outcome is already determined by the path condition is not a fork
@@ -363,6 +373,8 @@ class Ctx:
         self.pos += 1
         self.trail.append(choice)
         self.assume_raw(cz if choice else z3.Not(cz))
+        if not getattr(self, 'family', None):
+            memo[inner.get_id()] = (inner, (not choice) if flip else choice)
         return choice
 
     def choose(self, n, label=''):
